@@ -350,6 +350,23 @@ Module SignerExample.
     same_si (Some (CanonExc ["xs"] false)) = true.      (* a prefix list naming no declared prefix changes nothing *)
   Proof. repeat split; vm_compute; reflexivity. Qed.
 
+  (* the question "canonical bytes of el'" for an EXCLUSIVE canonicaliser: the library returns the serialisation of the element
+     it has just rewritten; the model asks canon_model about the rewritten element, i.e. transforms it once more.  On the built
+     messages the second transformation changes nothing (checked here on the example, on every case of the correspondence
+     run by comparing with the bytes the library hashed) *)
+  Definition rewrite_idempotent (c : option Build.canon) : bool :=
+    match mhonest c "id-1" with
+    | Some r => match canon_prep (canon_alg_of (cx_canon (m_cx r))) (m_el' r) with
+                | Some p => node_eqb p (m_el' r) && (m_bytes r =?s c14n_write (m_el' r))
+                | None => false
+                end
+    | None => false
+    end.
+  Example exclusive_rewrite_is_idempotent_examples :
+    rewrite_idempotent (Some (CanonExc [] false)) = true /\ rewrite_idempotent (Some (CanonExc [] true)) = true /\
+    rewrite_idempotent (Some (CanonExc ["saml"] false)) = true /\ rewrite_idempotent (Some (CanonExc ["saml"; "xs"] true)) = true.
+  Proof. repeat split; vm_compute; reflexivity. Qed.
+
   (* ... and BY THE THEOREM: the laws hold of these oracles and every premise of sign_verify_accepts_modelled holds of this
      run, so its hypotheses are jointly satisfiable *)
   Definition dummy_mrun : mrun :=
